@@ -841,11 +841,34 @@ class SymFlow:
         if ct is None:
             return st.freeze()
         want = on == "true"
+
+        def parts(t, w):
+            # `a && b` taken: both hold; `a || b` not taken: neither holds; otherwise a short-circuit value carries no information
+            if isinstance(t, tuple) and t and t[0] == "bin" and t[1] in ("&&", "||"):
+                if (t[1] == "&&" and w) or (t[1] == "||" and not w):
+                    return parts(t[2], w) + parts(t[3], w)
+                # `a && b` not taken while a is known to hold: b fails (and symmetrically; dually for `a || b` taken)
+                def known(x):
+                    cx = x if (isinstance(x, tuple) and x and x[0] in ("cmp", "c")) else norm(("cmp", "!=", x, C(0)))
+                    return st.cond_known(cx)
+                ka, kb = known(t[2]), known(t[3])
+                dec = (t[1] == "||")          # value that decides the operator on its own
+                if ka is not None and ka != dec:
+                    return parts(t[3], w)
+                if kb is not None and kb != dec:
+                    return parts(t[2], w)
+                return []
+            return [(t, w)]
+        if ct[0] == "bin" and ct[1] in ("&&", "||"):
+            for (t_, w_) in parts(ct, want):
+                if self.on_branch is not None:
+                    self.on_branch(st, b, t_, w_, self)
+                c_ = t_ if (isinstance(t_, tuple) and t_ and t_[0] in ("cmp", "c")) else norm(("cmp", "!=", t_, C(0)))
+                if not st.assume(c_, w_):
+                    return None
+            return st.freeze()
         if self.on_branch is not None:
             self.on_branch(st, b, ct, want, self)
-        if ct[0] == "bin" and ct[1] in ("&&", "||"):
-            # value of a short-circuit operator joined elsewhere: no information
-            return st.freeze()
         if not st.assume(ct, want):
             return None
         return st.freeze()
